@@ -165,6 +165,11 @@ def gen_prog(rng, name="p", depth=0, max_stmts=8, fid_base=0, p_flag=0.2, p_sub=
             kwargs = {}
             if rng.random() < 0.25:
                 kwargs["kw%d" % rng.randrange(2)] = gen_expr(rng, i, vinfo, np_)
+                k2 = random.Random(rng.getrandbits(30))
+                if i >= 2 and k2.random() < 0.5:
+                    # two keyword arguments fed by two different earlier results
+                    a_, b_ = k2.sample(range(i), 2)
+                    kwargs = {"kw0": var_ref(k2, a_, vinfo), "kw1": var_ref(k2, b_, vinfo)}
             active = gen_flag(rng, i, vinfo, np_) if rng.random() < p_flag else None
             if active is not None and funs[j]["kind"] == "unpack":
                 active = None  # a deactivated unpacked call cannot be unpacked in plain Python either
